@@ -17,11 +17,25 @@ Pipeline (see spec/Threads.tla, spec/BindProtocol.tla, spec/ThreadsRef.tla, DESI
  4  judge    every observation that differs from the prediction (alone outcome, unchanged tree)
              plus a sample of those that do not is written to TraceData.tla and adjudicated by
              TLC against R_C14 (Trace_Threads).  Only a rejected observation is a violation.
+
+ModelOK (all reads sequential, memory restored) is about the mechanism and only DIRECTS the
+replay; a correct lazy cache or a lock violates it somewhere and satisfies R_C14.  R_C14 speaks
+about observables: verdict and projected result of every thread equal those of the call run alone;
+the projected tree (public keywords and declared properties of every element, binding of every
+property incl. UNBOUND_PROPERTY, contents of the containers they hold, format register, module
+containers) is what it was before -- or what some sequential order of the same calls leaves
+(a change a sequential run makes as well is C08's matter, not a schedule's).
+
+Self-test in every run: the case "control" is an element class defined by the harness that keeps
+per-call state on the shared element.  It must be rejected through the TLC-candidate channel and
+through the sweep (else exit 2); its rejections are never reported.
+
+A violation's replay file holds the schedule in anchored form (thread, last access performed:
+op, location, n-th occurrence), which survives the process-dependent order of an element's
+validators; `--replay` re-records the instance and re-executes just that schedule.
 """
-import hashlib
 import json
 import multiprocessing as mp
-import os
 import random
 import signal
 import time
@@ -31,11 +45,18 @@ import common
 from common import MachineryError, run_tlc, SEED
 from report import Reporter
 
+# groups2/groups3: thread groups of 2 / 3 payloads per case; cap: exported candidates per case and
+# TLC worker; per_dev: replayed candidates per (kind, deviating thread, its read); sim_per_inst:
+# sampled TLC schedules per instance; sweep: variant -> (pre-emption points per direction at
+# monitored accesses, at accesses + library function entries); free_rounds: free-running rounds
+# per instance; judged_sample: non-drifted observations also adjudicated by TLC.
 TIERS = {
     "quick": dict(groups2=2, groups3=0, variants=("cold", "warm"), cap=12, per_dev=2, max_cand=40,
-                  sim_per_inst=4, bursts="{1, 2, 5, 15, 60, 240}", sweep=dict(cold=(120, 16)), free_rounds=6, bfs_workers=8, judged_sample=600),
+                  sim_per_inst=4, bursts="{1, 2, 5, 15, 60, 240}", sweep=dict(cold=(120, 16)),
+                  free_rounds=6, bfs_workers=8, judged_sample=600),
     "thorough": dict(groups2=9, groups3=2, variants=("cold", "warm"), cap=60, per_dev=3, max_cand=200,
-                     sim_per_inst=16, bursts="{1, 2, 3, 5, 10, 25, 60, 150, 400}", sweep=dict(cold=(10 ** 6, 400), warm=(200, 0)), free_rounds=40, bfs_workers=12,
+                     sim_per_inst=16, bursts="{1, 2, 3, 5, 10, 25, 60, 150, 400}",
+                     sweep=dict(cold=(10 ** 6, 400), warm=(200, 0)), free_rounds=40, bfs_workers=12,
                      judged_sample=4000),
 }
 NPROC = min(common.NPROC, 16)
